@@ -103,8 +103,10 @@ with wf_e (l : level) (e : s_expr) : bool :=
       end
   end.
 
-(* at most MAX_EXPR_DEPTH levels of parentheses *)
-Definition wf_vexpr (v : s_vexpr) : bool := wf_v v && (vexpr_depth v <=? max_expr_depth)%nat.
+(* at most MAX_EXPR_DEPTH levels of parentheses, and a syntax tree of height at most
+   MAX_EXPR_HEIGHT (so: no chain of more than MAX_EXPR_HEIGHT - 1 operators) *)
+Definition wf_vexpr (v : s_vexpr) : bool :=
+  wf_v v && (vexpr_depth v <=? max_expr_depth)%nat && (vexpr_height v <=? max_expr_height)%nat.
 
 Fixpoint same_v (v v' : s_vexpr) : Prop :=
   match v, v' with
